@@ -157,6 +157,30 @@ CLAIMED["C13"] = dict(
     design="§6 C13", technique="Lean 4 proof (prefix stability of assembly and repair loop, length preservation) + cut-offset sweep on the real tools",
     note=_ECC_NOTE)
 
+CLAIMED["C09"] = dict(
+    text="Kernel-checked theorems over a model of the entry format with Python's find/slice conventions: splitting a generated entry "
+         "recovers exactly path, size text, both parities and the track offset for every path length and track (fields not spelling a "
+         "delimiter together with the following one); int(str(n)) = n for every size; undamaged, a field decodes to itself for every field "
+         "length (one or several intra blocks), both tools, every codec record whose fresh parity checks; under the per-block premise that "
+         "contract W supplies for <= floor(parity/2) wrong symbols per intra block the exact field is recovered and reported corrected. "
+         "Tied to /repo by comparing field splitting (also on damaged/garbage entries), size text, lenient int(), intra generation and intra "
+         "correction with the real functions, plus end-to-end runs with metadata damaged within the intra bound.",
+    design="§6 C09", technique="Lean 4 proof (string search/slice reasoning, induction over intra blocks) + function-level and end-to-end correspondence",
+    note="Trusted: Lean kernel and standard axioms; model validated by sampling; per-block premises = C11_accepts / C02_decode_exact_errors under "
+         "contract W; names ending with a delimiter prefix or outside latin-1 are the format's limits (F15, F14); unireedsolomon within-capacity "
+         "failures are known finding F19.")
+CLAIMED["C15"] = dict(
+    text="Kernel-checked theorems over a model of generation's index records and of the index pass of `pff recover`: every record holds the "
+         "exact offset and kind of a marker/delimiter of the generated file, five per entry in file order; if the damaged file agrees with "
+         "the pristine one outside the recorded marker spans (markers overwritten by ARBITRARY bytes) and every index block decodes to its "
+         "pristine 9 info bytes (contract W for up to 9 corrupted bytes, code (27,9)), the pass returns exactly the pristine file; unusable "
+         "blocks (decoder fails or re-check fails, truncated) are skipped and the result is that of the usable blocks alone. Tied to /repo by "
+         "regenerating real ecc/.idx files from their parts and replaying recorded check/decode calls of real recoveries.",
+    design="§6 C15", technique="Lean 4 proof (offset arithmetic over the entry format, fold invariant of the recovery pass) + correspondence on real recoveries",
+    note="Trusted: Lean kernel and standard axioms; model validated by sampling; contract W for the index code; a block beyond capacity may be "
+         "mis-corrected into another valid record (then applied or rejected by the sanity check): 'skipped' is proved for the tool's own "
+         "criterion; Hamming pass is a no-op at threshold 0 (observed); F19 for codecs 1/2.")
+
 NOT_YET = {}
 
 props = [json.loads(l) for l in open(os.path.join(VERIF, "properties.jsonl"))]
